@@ -74,7 +74,8 @@ def upload_scenarios(draw):
     sc = {"kind": draw(st.sampled_from(["direct-h2", "prior-h2", "tunnel-h2"])), "uploads": ups, "download": draw(st.sampled_from([None, None, 0, 500, 70000])),
           "settings": settings, "wu_mode": draw(st.sampled_from(["auto", "auto", "tiny", "stream_first", "conn_first", "lazy"])),
           "wu_inc": draw(st.sampled_from([1, 7, 1000, 16384, 50000])), "script": [],
-          "choices": draw(st.lists(st.integers(0, 15), max_size=150)), "segs": draw(st.lists(st.sampled_from([0, 0, 9, 13, 26, 100]), max_size=4))}
+          "choices": draw(st.lists(st.integers(0, 15), max_size=150)), "segs": draw(st.lists(st.sampled_from([0, 0, 9, 13, 26, 100]), max_size=4)),
+          "runtime": draw(st.sampled_from(["asyncio", "asyncio", "trio"]))}
     if draw(st.integers(0, 3)) == 0:
         sc["script"].append({"when": {"event": "data", "n": draw(st.integers(0, 3))}, "do": [{"settings": {"4": draw(st.sampled_from([0, 1, 1000, W, 200000]))}}]})
     return sc
@@ -158,7 +159,9 @@ def execute_uploads(sc) -> Outcome:
     async def epilogue(r):
         await r.pool.aclose()
 
-    r = AioRun(world, pool_cfg, callers, choices=sc["choices"], segs=sc["segs"], epilogue=epilogue, step_limit=20000)
+    from ..trio_run import make_run
+
+    r = make_run(sc.get("runtime"))(world, pool_cfg, callers, choices=sc["choices"], segs=sc["segs"], epilogue=epilogue, step_limit=20000)
     r.run()
     desc = f"{sc['kind']} settings={sc['settings']} wu={sc['wu_mode']}/{sc['wu_inc']} uploads={[(u['size'], 'bytes' if u['as_bytes'] else u['chunks']) for u in sc['uploads']]} script={sc.get('script')}"
     base = dict(conn=sc["kind"], layer="uploads", uploads=len(sc["uploads"]))
@@ -194,7 +197,8 @@ def execute_uploads(sc) -> Outcome:
     total = sum(u["size"] for u in sc["uploads"])
     big = [u for u in sc["uploads"] if u["size"] > (sc["settings"].get("4", W) if sc["settings"].get("4") is not None else W)]
     n_wu = sum(1 for h2 in peers for l in h2.log if l[0] == "send" and l[1].startswith("WINDOW_UPDATE"))
-    tags = [sc["kind"], "wu-" + sc["wu_mode"], f"uploads={len(sc['uploads'])}", f"iws={sc['settings'].get('4')}", f"mfs={sc['settings'].get('5')}"]
+    tags = [sc["kind"], "wu-" + sc["wu_mode"], f"uploads={len(sc['uploads'])}", f"iws={sc['settings'].get('4')}", f"mfs={sc['settings'].get('5')}",
+            "runtime-" + (sc.get("runtime") or "asyncio")]
     if sc.get("script"):
         tags.append("window-setting-changed-mid-upload")
     if big:
